@@ -15,11 +15,14 @@ ASSUMPTIONS = [
 ]
 
 OPS = ["<", "<=", ">", ">=", "==", "!="]
-FRACS = [(0, 1), (1, 10), (1, 4), (1, 2), (3, 4), (1, 1)]
+FRACS = [(0, 1), (1, 10), (1, 4), (1, 3), (1, 2), (2, 3), (3, 4), (1, 1)]
 NETERR = {"k": "neterr", "op": ">", "num": 1, "den": 2}
 
 
-def flt(num, den):
+def flt(num, den, eps=0):
+    if eps:
+        # a literal 1e-10 away from the fraction: far closer than any two ratios of small counts, far more than a rounding error
+        return "%.12f" % (num / den + eps * 1e-10)
     s = repr(num / den)
     return s if "." in s else s + ".0"
 
@@ -41,9 +44,9 @@ def render(ast, full=False):
                 r = "(" + r + ")"
         return l + op + r
     if k == "neterr":
-        return "NetworkErrorRatio() %s %s" % (ast["op"], flt(ast["num"], ast["den"]))
+        return "NetworkErrorRatio() %s %s" % (ast["op"], flt(ast["num"], ast["den"], ast.get("eps", 0)))
     if k == "coderatio":
-        return "ResponseCodeRatio(%d, %d, %d, %d) %s %s" % (ast["a1"], ast["a2"], ast["b1"], ast["b2"], ast["op"], flt(ast["num"], ast["den"]))
+        return "ResponseCodeRatio(%d, %d, %d, %d) %s %s" % (ast["a1"], ast["a2"], ast["b1"], ast["b2"], ast["op"], flt(ast["num"], ast["den"], ast.get("eps", 0)))
     if k == "latency":
         return "LatencyAtQuantileMS(%d.0) %s %d" % (ast["q"], ast["op"], ast["ms"])
     raise ValueError(k)
@@ -53,12 +56,13 @@ def random_leaf(rng):
     f = rng.choice(["neterr", "coderatio", "coderatio", "latency"])
     op = rng.choice(OPS)
     num, den = rng.choice(FRACS)
+    eps = rng.choice([0, 0, 1, -1]) if num > 0 else rng.choice([0, 0, 1])
     if f == "neterr":
-        return {"k": "neterr", "op": op, "num": num, "den": den}
+        return {"k": "neterr", "op": op, "num": num, "den": den, "eps": eps}
     if f == "coderatio":
         a1, a2 = rng.choice([(500, 600), (500, 505), (400, 500), (200, 300), (502, 503)])
         b1, b2 = rng.choice([(0, 600), (200, 300), (0, 500)])
-        return {"k": "coderatio", "a1": a1, "a2": a2, "b1": b1, "b2": b2, "op": op, "num": num, "den": den}
+        return {"k": "coderatio", "a1": a1, "a2": a2, "b1": b1, "b2": b2, "op": op, "num": num, "den": den, "eps": eps}
     return {"k": "latency", "q": rng.choice([50, 90, 99, 100]), "op": rng.choice(["<", "<=", ">", ">=", ">", ">="]),
             "ms": rng.choice([50, 300, 1000, 3000])}
 
